@@ -47,7 +47,7 @@ SeqToSet(q)  == {q[i] : i \in DOMAIN q}
 (* through the reference validator: a pair on which the table and the      *)
 (* reference disagree is skipped and counted (two-oracle rule).            *)
 (***************************************************************************)
-StrU == {"", "a", "ab", "abc", "abcd", "b", "ba", "7", "2020-01-02", "x y"}
+StrU == {"", "a", "ab", "abc", "abcd", "b", "ba", "7", "2020-01-02", "x y", "3s", "YWI=", "2020-01-02T03:04:05Z"}
 
 PatSet(p) ==
   CASE p = "P_a_prefix"  -> {"a", "ab", "abc", "abcd"}           \* ^a
@@ -58,13 +58,15 @@ PatSet(p) ==
 
 FmtSet(f) ==
   CASE f = "date"      -> {"2020-01-02", "0001-01-01"}
+    [] f = "duration"  -> {"3s"}
+    [] f = "byte"      -> {"", "YWI="}
     [] f = "date-time" -> {"2020-01-02T03:04:05Z", "0001-01-01T00:00:00Z"}
     [] f = "uuid"      -> {"a0eebc99-9c0b-4ef8-bb6d-6bb9bd380a11"}
     [] f = "email"     -> {}
     [] f = "hostname"  -> {"a", "ab", "abc", "abcd", "b", "ba", "7"} \ {"7"} \* measured, see calibration
     [] OTHER           -> StrU
 
-StringFormats == {"date", "date-time", "uuid", "email"}
+StringFormats == {"date", "date-time", "uuid", "email", "duration", "byte"}
 
 (***************************************************************************)
 (* Type test.  integer: a num whose abstract value is even (n/2 integral). *)
@@ -126,6 +128,7 @@ Valid(defs, s0, v) ==
   LET s == Deref(defs, s0) IN
   /\ Has(s, "type") => TypeOK(s.type, v)
   /\ Has(s, "enum") => EnumOK(s, v)
+  /\ Has(s, "enumT") => (\E i \in DOMAIN s.enumT : s.enumT[i] = v)      \* enum of a non-scalar schema: tagged values
   /\ Tag(v) = "num" => NumOK(s, Val(v))
   /\ Tag(v) = "str" => StrOK(s, Val(v))
   /\ Tag(v) = "arr" =>
@@ -211,6 +214,7 @@ ValidModel(defs, s0, v) ==
   LET s == Deref(defs, s0) IN
   /\ Has(s, "type") => TypeOK(s.type, v)
   /\ Has(s, "enum") => EnumOK(s, v)
+  /\ Has(s, "enumT") => (\E i \in DOMAIN s.enumT : s.enumT[i] = v)      \* enum of a non-scalar schema: tagged values
   /\ Tag(v) = "num" => NumOK(s, Val(v))
   /\ Tag(v) = "str" => StrOK(s, Val(v))
   /\ Tag(v) = "arr" =>
@@ -253,6 +257,7 @@ IsZeroish(v) ==
 
 IsArraySchema(defs, s0) == LET s == Deref(defs, s0) IN Has(s, "type") /\ s.type = "array"
 
+DateTimeCanon(x) == IF x = "2020-01-02T03:04:05.000Z" THEN "2020-01-02T03:04:05Z" ELSE x
 RECURSIVE RoundTripAllowed(_, _, _, _)
 RoundTripAllowed(defs, s0, d, o) ==
   LET sb == Deref(defs, s0)
@@ -283,7 +288,8 @@ RoundTripAllowed(defs, s0, d, o) ==
          IF Has(s, "items") THEN RoundTripAllowed(defs, s.items, Val(d)[i], Val(o)[i])
          ELSE IF Has(s, "itemsTuple") /\ i \in DOMAIN s.itemsTuple THEN RoundTripAllowed(defs, s.itemsTuple[i], Val(d)[i], Val(o)[i])
          ELSE Val(o)[i] = Val(d)[i]
-  ELSE o = d
+  \* a date-time may be re-rendered with another precision: the same instant is the same value
+  ELSE o = d \/ (Get(s, "format", "") = "date-time" /\ Tag(d) = "str" /\ Tag(o) = "str" /\ DateTimeCanon(Val(o)) = DateTimeCanon(Val(d)))
 
 RECURSIVE HasNumX(_)
 HasNumX(d) ==
@@ -334,6 +340,7 @@ SchemaDiffs(a, b0, path, sdefs) ==
   \cup (IF ~sameType THEN {}
         ELSE IF Has(a, "enum") # Has(b, "enum") THEN {path \o ":enum"}
         ELSE IF Has(a, "enum") /\ SeqToSet(a.enum) # SeqToSet(b.enum) THEN {path \o ":enum"} ELSE {})
+  \cup (IF Has(a, "enumT") # Has(b, "enumT") THEN {path \o ":enum"} ELSE {})
   \cup (IF DOMAIN PropsF(a) = DOMAIN PropsF(b) THEN {} ELSE {path \o ":properties"})
   \cup UNION {SchemaDiffs(PropsF(a)[k], PropsF(b)[k], path \o "." \o k, sdefs) : k \in (DOMAIN PropsF(a)) \cap (DOMAIN PropsF(b))}
   \cup (IF Has(a, "items") # Has(b, "items") THEN {path \o ":items"}
